@@ -47,14 +47,14 @@ type Scenario struct {
 	SMT       *ProofJ
 	Env       Env
 	// status answers used by faults
-	Revoked       *StatusAnswerJ // a consistent answer in which the auth nonce IS revoked
-	AttackerProof *MTPJ          // inclusion proof of the attacker's auth claim in the attacker's tree
-	AttackerSMT   *MTPJ          // inclusion proof of the credential's claim in the attacker's tree
-	OtherIssuer   *StatusAnswerJ // a consistent non-revocation answer built from the attacker's trees
-	UnrelatedProof *MTPJ  // inclusion proof of Unrelated (which IS in the issuer's tree)
-	UnrelatedSig   string // the issuer's signature over Unrelated
-	AttackerAbsent *MTPJ  // genuine non-existence proof of the attacker's auth claim in the issuer's tree
-	NonMember     *MTPJ          // genuine non-existence proof of ClaimAlt's index in the issuer's tree
+	Revoked        *StatusAnswerJ // a consistent answer in which the auth nonce IS revoked
+	AttackerProof  *MTPJ          // inclusion proof of the attacker's auth claim in the attacker's tree
+	AttackerSMT    *MTPJ          // inclusion proof of the credential's claim in the attacker's tree
+	OtherIssuer    *StatusAnswerJ // a consistent non-revocation answer built from the attacker's trees
+	UnrelatedProof *MTPJ          // inclusion proof of Unrelated (which IS in the issuer's tree)
+	UnrelatedSig   string         // the issuer's signature over Unrelated
+	AttackerAbsent *MTPJ          // genuine non-existence proof of the attacker's auth claim in the issuer's tree
+	NonMember      *MTPJ          // genuine non-existence proof of ClaimAlt's index in the issuer's tree
 }
 
 func RandField(rng *rand.Rand) *big.Int { return new(big.Int).Rand(rng, Q) }
